@@ -292,7 +292,7 @@ class Check:
         self.coverage["theorems"] = sorted(set(self.coverage["theorems"]) | set(names))
         return True, info
 
-    def source_tie(self, module, groups=("lattice", "atom", "structure", "cif", "expansion")):
+    def source_tie(self, module, groups=None):
         """Regenerate `DS/Gen/Src*.lean` from the tree under examination (translate/pysrc.py) and
         re-check the `rfl` theorems of `module` that identify the hand-written model with that
         transliteration.  Returns (ok, info); a broken tie is not a verdict (DESIGN 2.4)."""
